@@ -24,7 +24,8 @@ def _self_attrs(fn):
             dotted(n.targets[0].value) == "self"}
 
 
-def check(ctx):
+def responder_framing(ctx):
+    """how a WSGI response is delimited on the wire (shared with C30: a response only survives the trip if its framing is right)"""
     ctx.rule("T6-reset", "attrs(__init__) - OUTLIVE subset of attrs(reset)")
     ctx.rule("D9-guard", "reset: `if chunkable is not None: self.chunkable = <chunkable>` (guard and value are the same parameter)")
     ctx.rule("T5-reset-callers", "callers of Responder.reset pass chunkable")
@@ -102,6 +103,10 @@ def check(ctx):
                 ctx.check(fn.name in ("build", "start"), "T4-framing", x, "Responder.%s sets the %s header" % (fn.name, const_str(x.slice)),
                           "a framing header that start() did not see leaves .length/.chunkable describing a different framing than the head")
     ctx.floor("T4-framing:writers", k, 8)
+
+
+def check(ctx):
+    responder_framing(ctx)
     vr = ctx.cls("aio.http.serving", "Valet").own_method("serviceReps")
     t_ = src(vr)
     X = FuncView(ctx, vr)
